@@ -76,13 +76,20 @@ func c09Gen(t *rapid.T) c09Case {
 	o.MaxInspections = 0
 	o.MaxSteps = 2
 	w := hx.GenWorld(t, o)
+	if w.Entry == "rundir" {
+		w.RunDirRel = rapid.Bool().Draw(t, "rundirrel")
+	}
 	c := c09Case{World: w, LineNorm: rapid.Bool().Draw(t, "linenorm"), StepFail: rapid.IntRange(0, 7).Draw(t, "stepfail") == 0,
 		StepAlgs: rapid.SampledFrom([]string{"sha256", "sha256", "sha256", "sha512", "both"}).Draw(t, "stepalgs")}
 	files := sortedFileKeys(c09Files(w))
 	pick := func(label string) string { return rapid.SampledFrom(files).Draw(t, label) }
 	nEdits := rapid.SampledFrom([]int{0, 0, 0, 1, 1, 2}).Draw(t, "nedits")
 	for i := 0; i < nEdits; i++ {
-		switch rapid.IntRange(0, 4).Draw(t, "edit") {
+		switch rapid.IntRange(0, 6).Draw(t, "edit") {
+		case 5:
+			c.DirEdits = append(c.DirEdits, "w:payload.link:evil")
+		case 6:
+			c.DirEdits = append(c.DirEdits, "w:sub/dir/plugin.link:evil")
 		case 0:
 			c.DirEdits = append(c.DirEdits, "w:intruder.bin:evil")
 		case 1:
@@ -143,18 +150,18 @@ func c09Gen(t *rapid.T) c09Case {
 				// no rule at all (an inspection that only counts through its exit status)
 				return [][]string{}
 			case 0, 1, 2:
-				return [][]string{match, {"ALLOW", pre + "insp-*"}, {"ALLOW", "*.link"}, {"DISALLOW", "*"}}
+				return [][]string{match, {"ALLOW", pre + "insp-*"}, {"ALLOW", "insp0.link"}, {"ALLOW", "insp1.link"}, {"ALLOW", "insp2.link"}, {"DISALLOW", "*"}}
 			case 3:
-				return [][]string{{"REQUIRE", pre + pick(label+"req")}, match, {"ALLOW", pre + "insp-*"}, {"ALLOW", "*.link"}, {"DISALLOW", "*"}}
+				return [][]string{{"REQUIRE", pre + pick(label+"req")}, match, {"ALLOW", pre + "insp-*"}, {"ALLOW", "insp0.link"}, {"ALLOW", "insp1.link"}, {"ALLOW", "insp2.link"}, {"DISALLOW", "*"}}
 			case 4:
-				return [][]string{{"CREATE", pre + "insp-*"}, {"MODIFY", pre + pick(label+"mod")}, match, {"ALLOW", "*.link"}, {"DISALLOW", "*"}}
+				return [][]string{{"CREATE", pre + "insp-*"}, {"MODIFY", pre + pick(label+"mod")}, match, {"ALLOW", "insp0.link"}, {"ALLOW", "insp1.link"}, {"ALLOW", "insp2.link"}, {"DISALLOW", "*"}}
 			case 5:
 				return [][]string{{"DELETE", pre + pick(label+"del")}, {"ALLOW", "*"}}
 			case 7:
 				// REQUIRE after everything was consumed: the artifact is no longer in the queue
 				return [][]string{{"ALLOW", "*"}, {"REQUIRE", pre + pick(label+"late")}}
 			case 8:
-				return [][]string{match, {"ALLOW", pre + "insp-*"}, {"ALLOW", "*.link"}, {"REQUIRE", pre + "ghost.file"}, {"DISALLOW", "*"}}
+				return [][]string{match, {"ALLOW", pre + "insp-*"}, {"ALLOW", "insp0.link"}, {"ALLOW", "insp1.link"}, {"ALLOW", "insp2.link"}, {"REQUIRE", pre + "ghost.file"}, {"DISALLOW", "*"}}
 			default:
 				return [][]string{{"ALLOW", "*"}}
 			}
@@ -331,7 +338,12 @@ func c09Run(c c09Case, r *hx.Rec) error {
 	if err != nil {
 		return fmt.Errorf("harness: materialise: %v", err)
 	}
-	exp := c09Model(c, root+"/run/product")
+	modelDir := root + "/run/product"
+	if w.RunDirRel && w.Entry == "rundir" {
+		modelDir = "product"
+		r.Label("relative-run-directory")
+	}
+	exp := c09Model(c, modelDir)
 	out := b.Verify()
 	r.Label("entry=%s", w.Entry)
 	r.Label("step_algs=%s", c.StepAlgs)
